@@ -61,6 +61,9 @@ Proof.
     [rewrite remove_track_now|]; reflexivity.
 Qed.
 
+Lemma end_stream_now tl id : now (end_stream tl id) = now tl.
+Proof. unfold end_stream. destruct (find_track id (tracks tl)); reflexivity. Qed.
+
 Lemma tick_one_now cfg tl id : now (fst (fst (tick_one cfg tl id))) = now tl.
 Proof.
   unfold tick_one. destruct (find_track id (tracks tl)) as [tr|]; [|reflexivity].
@@ -71,7 +74,8 @@ Proof.
   - rewrite finish_track_now. reflexivity.
   - destruct (ignore_exc cfg); simpl; [rewrite remove_track_now|]; reflexivity.
   - destruct (nth cb (cbs cfg) (CbNone, [])) as [rk ops]. simpl.
-    rewrite finish_track_now, exec_cb_ops_now. reflexivity.
+    rewrite finish_track_now.
+    match goal with |- context [if ?b then _ else _] => destruct b end; [rewrite end_stream_now|]; rewrite exec_cb_ops_now; reflexivity.
   - reflexivity.
 Qed.
 
